@@ -544,8 +544,18 @@ func (g *gen) toerror(id, np, nout int) {
 		return
 	}
 	fn := fmt.Sprintf("toerr_%d", id)
+	fres := results(typs(outs), "bool")
+	if id%2 == 1 {
+		// every second instance: f names its results (as net/http.ParseHTTPVersion does)
+		var nr []string
+		for i, t := range typs(outs) {
+			nr = append(nr, fmt.Sprintf("out%d %s", i, t))
+		}
+		fres = "(" + strings.Join(append(nr, "ok bool"), ", ") + ")"
+		g.meta.Count("toerror/named-results")
+	}
 	fmt.Fprintf(&g.calls, "func %s(e error, f func(%s) %s) func(%s) %s {\n\treturn deriveToError_%d(e, f)\n}\n",
-		fn, params("a", ins), results(typs(outs), "bool"), strings.Join(typs(ins), ", "), results(typs(outs), "error"), id)
+		fn, params("a", ins), fres, strings.Join(typs(ins), ", "), results(typs(outs), "error"), id)
 	fmt.Fprintf(&g.drv, "\nfunc init() {\n\ttoerrAr[%d] = [2]int{%d, %d}\n\ttoerrT[%d] = func(args []int, success bool, etag int) (res []int, et int, log [][]int) {\n", id, np, nout, id)
 	fmt.Fprintf(&g.drv, "\t\tf := %s\n", stageFunc(0, false, ins, outs, "success", "bool"))
 	fmt.Fprintf(&g.drv, "\t\t%s := %s(sentinel(etag), f)(%s)\n\t\tres = %s\n\t\tet = tagOf(err)\n\t\treturn\n\t}\n}\n",
